@@ -387,7 +387,9 @@ async def _execute(model, role, endpoint, history, spacing, rng, link_kind, frag
             elif name == 'frag_end':
                 f = {'type': 'PAYLOAD', 'sid': sid, 'next': True, 'complete': False, 'data': b'-rest', 'metadata': None}
             elif name == 'error':
-                f = {'type': 'ERROR', 'sid': sid, 'code': 0x201, 'data': b'peer-error'}
+                # error data is arbitrary bytes on the wire, not necessarily text
+                f = {'type': 'ERROR', 'sid': sid, 'code': rng.choice([0x201, 0x201, 0x202]),
+                     'data': rng.choice([b'peer-error', b'peer-error', b'', b'\xff\xfe\x80 binary error data'])}
             elif name == 'req1':
                 f = {'type': 'REQUEST_N', 'sid': sid, 'n': 1}
             elif name == 'reqmax':
